@@ -9,6 +9,12 @@ SPECS = ["contracts/context.spec", "contracts/nodes.spec", "contracts/context_l1
 BASE = os.path.dirname(os.path.dirname(os.path.abspath(__file__)))
 
 
+L1_BUILDERS = ["and", "or", "xor", "shift_left", "arithmetic_shift_right", "shift_right", "add", "sub", "mul", "div", "signed_div",
+               "signed_mod", "signed_remainder", "remainder", "greater", "greater_or_equal", "greater_signed", "greater_or_equal_signed",
+               "implies", "equal", "distinct", "ite", "not", "negate", "concat", "slice", "zero_extend", "sign_extend",
+               "bv_lit", "zero", "one", "ones", "get_true", "get_false", "array_store", "array_const", "array_read"]
+
+
 def rd(rel):
     return open(os.path.join(BASE, rel), encoding="utf-8").read()
 
@@ -57,5 +63,13 @@ def build(ub, algebra_text):
     ub.emit_fn(NODES, "get", "verify", impl="impl BVLitValue", spec_key="BVLitValue::get", cfg={"receivers": {}, "no_canary": True})
     ub.emit_fn(NODES, "width", "verify", impl="impl BVLitValue", spec_key="BVLitValue::width", cfg={"receivers": {}, "no_canary": True})
     ub.emit_fn(NODES, "new", "verify", impl="impl BVLitValue", spec_key="BVLitValue::new", cfg={"receivers": {}, "no_canary": True})
-    ub.emit_raw("lemmas/context.rs")
+    ub.emit_raw("lemmas/context.rs", {"//@@GENERATED-LEMMAS@@": rd("lemmas/context_gen.rs")})
+    ub.emit_fn(CTX, "add_expr", "verify", impl="impl Context", cfg={"receivers": {}, "replace": [["index.into()", "expr_ref_from_usize(index)"]]})
+    ub.emit_fn(TYPES, "get_bv_type", "stub", spec_key="ExprRef::get_bv_type")
+    ub.emit_fn(TYPES, "get_type", "stub", spec_key="ExprRef::get_type")
+    for m in ("is_bit_vector", "is_array", "is_bool", "get_bit_vector_width", "get_array_data_width", "get_array_index_width"):
+        ub.emit_fn(NODES, m, "verify", impl="impl Type", spec_key="Type::" + m, cfg={"receivers": {}, "no_canary": True})
+    bcfg = {"receivers": {}}
+    for b in L1_BUILDERS:
+        ub.emit_fn(CTX, b, "verify", impl="impl Context", cfg=bcfg)
     ub.out("} // verus!\nfn main() {}\n")
